@@ -72,7 +72,7 @@ RunResult run_plan(const Plan &plan, const std::string &image_dir, bool keep_tra
   kern.spawn_native(nullptr, "driver", [w](int, char **) { w->driver(); return 0; }, {}, 0, 0, "/", true);
   for (auto &pp : kern.procs) if (pp.second->role == "driver") pp.second->autoreap = true;
   kern.run();
-  if (res.violations.empty()) w->finish();
+  if (res.violations.empty() && kern.abort_reason.empty()) w->finish();   // a run that exhausted its budget is inconclusive, not judged
   res.trace_hash = kern.trace_hash.get();
   res.steps = kern.steps; res.events = kern.seq; res.sim_seconds = kern.clock - kern.start_clock_;
   res.faults_fired = kern.fault_counts; res.probes = kern.probes;
